@@ -272,6 +272,18 @@ def _make(case, target, cb=None):
             kw['current_th_cb'] = lambda c=float(p['cur']): c
         if _v(case, 'cb') != 'none':
             kw['auto_th_cb'] = cb
+        if _v(case, 'wired') and _v(case, 'cb') != 'none' and p.get('cur') is None:
+            # the two callbacks wired together as an application does: auto_th_cb stores the reported threshold,
+            # current_th_cb reads the stored value (+inf until something was reported) - the result must be the
+            # automatic threshold applied to EVERY sample, whatever the chunking
+            box = [float('inf')]
+
+            def store(value, cb=cb, box=box):
+                box[0] = value
+                cb(value)
+            cb = store
+            kw['auto_th_cb'] = store
+            kw['current_th_cb'] = lambda box=box: box[0]
         if _v(case, 'cb') == 'positional':      # every keyword given positionally
             return P.auto_th(nsd, baseline, target, fsarg, p['mode'], cb, kw.get('current_th_cb'))
         return P.auto_th(nsd, baseline, target, fs=fsarg, mode=p['mode'], **kw)
@@ -437,6 +449,9 @@ def _drive(case, chunks, cb=None, prefix=None):
         outs.append(o.copy())
         if o.flags.writeable and o.size:
             o[...] = True if o.dtype == bool else -77
+        md = getattr(o, 'metadata', None)
+        if isinstance(md, dict):
+            md['_annotated_by_target'] = len(outs)      # ... and annotates it in place, as add_metadata / auto_th do
     cr = _make(case, target, cb)
     for c in (prefix or []):
         cr.send(c)
@@ -1018,6 +1033,7 @@ def _variant_cases(stage, rng, reps):
             p['nsdk'] = rng.choice(['py', 'np'])
             p['cur'] = rng.choice([None, None, 3.5, 0.25, -2.5])
             v['cb'] = rng.choice(['list', 'none', 'positional'])
+            v['wired'] = p['cur'] is None and v['cb'] != 'none' and rng.random() < 0.5
         if stage in ('blocked', 'discard') and rng.random() < 0.5:
             v['reset'] = _rand_sizes(rng, rng.randint(1, 12), 4)
         c = _case(stage, p, two, ann, sizes, rng)
